@@ -63,7 +63,7 @@ CLAIMED = {
    category="exploration",
    technique="property-based round-trip/differential testing (rapid) with a normal-form comparison plus a reference three-valued evaluator (bindings + truth tables) as arbiter",
    text="Generated builder programs (criteria trees over And/Or/Xor/Not, all predicates, kinds, projections, updates, allShortestPaths; literal/parameter values incl. int extremes, integral/huge floats, hostile strings; direct cypher-model compositions) are built once and applied to query.Builder (PG-path model) and neo4j.QueryBuilder (text); the text is re-parsed and its normal form (grouping, operand order, any-of/all-of kinds, typed literals, parameters by symbol and map value) must equal that of the parameter-rewritten model after the documented Neo4j rewrites; both criteria are additionally evaluated on generated bindings and three-valued truth tables. Sampling, not proof: the program space is unbounded while precedence/kind/literal slips are shallow and shrink to 2-3 node programs.",
-   note="A second Neo4j query assembled from the SAME criteria values must be the same text with the same parameters; look-alike list pairs (same %v text, different values) are drawn into one case. Associative re-grouping of the same operator is accepted. Empty lists/kinds/maps, raw string literals, NaN/Inf and unsigned values above MaxInt64 as literals are outside the domain. Two open findings are excluded by construction: MinInt64 literal, nested arithmetic operands. Evaluator semantics are the check's own three-valued model, not Neo4j's.",
+   note="Rendering twice, and Prepare-Render-PrepareAllShortestPaths-Render on one builder, must send what a fresh builder sends. A second Neo4j query assembled from the SAME criteria values must be the same text with the same parameters; look-alike list pairs (same %v text, different values) are drawn into one case. Associative re-grouping of the same operator is accepted. Empty lists/kinds/maps, raw string literals, NaN/Inf and unsigned values above MaxInt64 as literals are outside the domain. Two open findings are excluded by construction: MinInt64 literal, nested arithmetic operands. Evaluator semantics are the check's own three-valued model, not Neo4j's.",
    design="§4 C10"),
  "C11": dict(
    category="exploration",
@@ -74,7 +74,7 @@ CLAIMED = {
  "C12": dict(
    category="exploration",
    technique="stateful property-based testing (rapid): model-based oracle plus round-trip invariant (loaded + delta = current), aliasing metamorphic check (untouched sibling unchanged)",
-   text="Generated edit/fork/merge histories over families of Properties, Relationships and Nodes sharing one loaded state (built the way the pg and neo4j drivers build loaded entities); after every step every entity is compared with a last-edit-wins model, its change sets must be disjoint and, applied to the loaded state, reproduce the current state; a third sub-check makes the kind values for one fresh name in 2-16 goroutines at the same moment and deletes / adds kinds across them; nil is one of the property values; a second scenario builds all nodes from one shared Kinds slice.",
+   text="Generated edit/fork/merge histories over families of Properties, Relationships and Nodes sharing one loaded state (built the way the pg and neo4j drivers build loaded entities); after every step every entity is compared with a last-edit-wins model, its change sets must be disjoint and, applied to the loaded state, reproduce the current state; a fourth sub-check (pgarray) reads the text[] literal that carries tracked deletions to the pg batch update with an array_in reader written from the PostgreSQL manual; the node's own slices are handed to AddKinds / DeleteKinds; a third sub-check makes the kind values for one fresh name in 2-16 goroutines at the same moment and deletes / adds kinds across them; nil is one of the property values; a second scenario builds all nodes from one shared Kinds slice.",
    note="Bounded: <=5 entities, <=14 (24) steps, 4-key/4-kind alphabets; Merge judged only inside a family sharing a loaded state (batch upsert of fresh entities is outside the statement). Open finding: Properties.Merge copies the other side's whole map (excluded by construction).",
    design="§4 C12"),
  "C13": dict(
@@ -105,12 +105,12 @@ CLAIMED = {
    category="exploration",
    technique="property-based testing (rapid) with reference-model oracle (sequential expansion / path enumeration), fault injection at the k-th driver call, schedule perturbation, testing/synctest bubbles for deterministic deadlock and leak detection, Go race detector in both tiers",
    text="Generated BufferedPipe schedules (writers x reader behaviour x close/cancel), BreadthFirst expansion plans with fault plans (driver error, visitor error, cancellation, memory limit at the k-th call; 1-8 workers), and stored graphs with traversal plans for the sequential helpers are run under the race detector inside synctest bubbles and decided against a sequential reference expansion: exactly-once multiset equality, returned error identity, termination and goroutine-leak freedom (durably blocked bubble = failure, no timeouts), path-tree size accounting.",
-   note="Goroutine interleavings are sampled, not enumerated; 'promptly' = returned and joined without further driver progress; sequential helpers run on the in-memory fakedb; AcyclicTraverseTerminals decided as 'every reachable sink, nothing unreachable'; node sets under skip/limit: drawn from the plan's set, at most limit, and of exactly the size filter+skip+limit fix when every reachable node has one way in; traversal.UniquePathSegmentFilter under 1-16 workers on fan-in graphs (each edge admitted at most once, exactly the considered edges on acyclic plans); the pattern driver with one worker against the same driver with N workers.",
+   note="Goroutine interleavings are sampled, not enumerated; 'promptly' = returned and joined without further driver progress; sequential helpers run on the in-memory fakedb; AcyclicTraverseTerminals decided as 'every reachable sink, nothing unreachable'; node sets under skip/limit: drawn from the plan's set, at most limit, and of exactly the size filter+skip+limit fix when every reachable node has one way in; traversal.UniquePathSegmentFilter under 1-16 workers on fan-in graphs (each edge admitted at most once, exactly the considered edges on acyclic plans); the pattern driver with one worker against the same driver with N workers; after BreadthFirst returns, with the caller's context still live, no other goroutine of the bubble may sit in DAWGS code; node ids may agree in their low 32 bits; an enumerated pipe-bulk check puts one writer 65536-70000 values ahead of any reader.",
    design="§4 C17"),
  "C18": dict(
    category="exploration",
    technique="property-based testing (rapid), round-trip + reference-model oracle (independent manifest recomputation and metrics model), shrinking to a replayable JSON case",
-   text="Property-based round trip over generated multi-graph databases (ids with gaps, kind-less nodes, parallel edges, nested/unicode/large-integer property values, empty graphs, kind names containing a comma, graph names that differ by case only, ids up to 2^64-1) x codec {none,gzip,zstd} x batch/shard sizes around the entity counts: Dump -> independent recomputation of the manifest from the bytes on disk (digests, sizes, counts, shard bounds, file set, metrics) -> Load into an empty in-memory database -> canonical graph comparison (numbers as exact decimals) -> Verify against source, loaded and a perturbed database judged by an independent metrics model.",
+   text="Property-based round trip over generated multi-graph databases (ids with gaps, kind-less nodes, parallel edges, nested/unicode/large-integer property values, empty graphs, kind names containing a comma, graph names that differ by case only, ids from 0 up to 2^64-1, a destination that numbers from 0 or from 1) x codec {none,gzip,zstd} x batch/shard sizes around the entity counts: Dump -> independent recomputation of the manifest from the bytes on disk (digests, sizes, counts, shard bounds, file set, metrics) -> Load into an empty in-memory database -> canonical graph comparison (numbers as exact decimals) -> Verify against source, loaded and a perturbed database judged by an independent metrics model.",
    note="The in-memory fakedb replaces the driver (no PostgreSQL/Neo4j behaviour); the 'exactly when' direction of Verify is decided only up to what the metrics fingerprint records (property-only changes are not judged); without uid properties the multiset comparison is necessary, not sufficient, for isomorphism.",
    design="§4 C18"),
  "C19": dict(
